@@ -1,0 +1,92 @@
+//go:build verif
+
+package datastore
+
+// Contracts checked by /verif's govc.  Comments only; build tag "verif".
+
+//@ unit datastore
+//@ // number of Commit / Discard calls issued on the underlying corekv transaction, and the outcome
+//@ ghost kvCommits int
+//@ ghost kvCommitOK bool
+//@ ghost kvDiscards int
+//@
+//@ extern (corekv.Txn).Commit(t) -> (e)
+//@   ensures kvCommits == old(kvCommits) + 1
+//@   ensures kvCommitOK == (e == nil)
+//@   modifies kvCommits, kvCommitOK
+//@ extern (corekv.Txn).Discard(t)
+//@   ensures kvDiscards == old(kvDiscards) + 1
+//@   modifies kvDiscards
+//@
+//@ // Commit: the store is committed exactly once, its error is returned, and the callbacks run are the
+//@ // success callbacks exactly when the commit succeeded (the error callbacks otherwise); the discard
+//@ // callbacks never run.  (range over a slice runs every element once, in registration order.)
+//@ func (*BasicTxn).Commit -> (err)
+//@   loop 1 invariant sameslice(rangeslice, ite(err == nil, old(t.successAsyncFns), old(t.errorAsyncFns)))
+//@   loop 2 invariant sameslice(rangeslice, ite(err == nil, old(t.successFns), old(t.errorFns)))
+//@   ensures kvCommits == old(kvCommits) + 1 && kvDiscards == old(kvDiscards)
+//@   ensures (err == nil) == kvCommitOK
+//@   modifies kvCommits, kvCommitOK
+//@   tags C20 C05
+//@ func (*BasicTxn).Discard
+//@   loop 1 invariant sameslice(rangeslice, old(t.discardAsyncFns))
+//@   loop 2 invariant sameslice(rangeslice, old(t.discardFns))
+//@   ensures kvDiscards == old(kvDiscards) + 1 && kvCommits == old(kvCommits)
+//@   modifies kvDiscards
+//@   tags C20 C05
+//@ // registration appends to exactly one list
+//@ func (*BasicTxn).OnSuccess
+//@   ensures len(t.successFns) == old(len(t.successFns)) + 1 && t.successFns[old(len(t.successFns))] == fn
+//@   ensures sameslice(t.errorFns, old(t.errorFns)) && sameslice(t.discardFns, old(t.discardFns))
+//@   ensures sameslice(t.successAsyncFns, old(t.successAsyncFns)) && sameslice(t.errorAsyncFns, old(t.errorAsyncFns))
+//@   tags C20
+//@ func (*BasicTxn).OnError
+//@   ensures len(t.errorFns) == old(len(t.errorFns)) + 1 && t.errorFns[old(len(t.errorFns))] == fn
+//@   ensures sameslice(t.successFns, old(t.successFns)) && sameslice(t.discardFns, old(t.discardFns))
+//@   tags C20
+//@ func (*BasicTxn).OnDiscard
+//@   ensures len(t.discardFns) == old(len(t.discardFns)) + 1 && t.discardFns[old(len(t.discardFns))] == fn
+//@   ensures sameslice(t.successFns, old(t.successFns)) && sameslice(t.errorFns, old(t.errorFns))
+//@   tags C20
+//@
+//@ // ===== C06 / C16: the stores a transaction hands out are built over the transaction it holds ======
+//@ func NewMultistore -> (m)
+//@   ensures m.root == rootstore
+//@   tags C06 C16
+//@ func NewTxnFrom -> (r)
+//@   ensures r.Multistore.root == r.txn && r.id == id
+//@   tags C06
+//@ // for a concurrent transaction that object is the mutex wrapper, so every store access is serialised
+//@ func NewConcurrentTxnFrom -> (r)
+//@   ensures r.Multistore.root == r.txn && hastype(r.txn, *concurrentTxn) && r.id == id
+//@   tags C16
+//@
+//@ // lock discipline of the wrapper: the embedded transaction is only touched with t.mu held, and the
+//@ // lock is released on every path (ghost muHeld; goroutine interleavings themselves are not modelled)
+//@ ghost muHeld bool
+//@ extern (*sync.Mutex).Lock(m)
+//@   requires !muHeld
+//@   ensures muHeld
+//@   modifies muHeld
+//@ extern rundefer (*sync.Mutex).Unlock(m)
+//@   requires muHeld
+//@   ensures !muHeld
+//@   modifies muHeld
+//@ extern (*sync.Mutex).Unlock(m)
+//@   requires muHeld
+//@   ensures !muHeld
+//@   modifies muHeld
+//@ protocol Locked
+//@   requires !muHeld
+//@   ensures !muHeld
+//@   modifies muHeld
+//@   tags C16
+//@ apply Locked: (*concurrentTxn).Delete, (*concurrentTxn).Get, (*concurrentTxn).Has, (*concurrentTxn).Set
+//@ func (*concurrentTxn).Delete
+//@   assert before call#1 Delete: muHeld
+//@ func (*concurrentTxn).Get
+//@   assert before call#1 Get: muHeld
+//@ func (*concurrentTxn).Has
+//@   assert before call#1 Has: muHeld
+//@ func (*concurrentTxn).Set
+//@   assert before call#1 Set: muHeld
